@@ -1160,23 +1160,30 @@ func (bc *BlockChain) insertChain2(chain types.Blocks, try int) (int, []interfac
 			block.Hash()
 			err = bc.Validator().ValidateBody(block)
 		}
-		switch {
-		case err == ErrKnownBlock:
-			// Block and state both already known. However if the current block is below
-			// this number we did a rollback and we should reimport it nonetheless.
-			// A known block that is heavier than the head was stored but never made
-			// canonical (e.g. the process died between writing it and moving the
-			// head): it must be reimported as well, or the node stays on the lighter
-			// branch.
-			if current := bc.CurrentBlock(); current.NumberU64() >= block.NumberU64() {
-				localTd := bc.GetTd(current.Hash(), current.NumberU64())
-				externTd := bc.GetTd(block.Hash(), block.NumberU64())
-				if localTd == nil || externTd == nil || externTd.Cmp(localTd) <= 0 {
-					stats.ignored++
-					continue
-				}
+		if err == ErrKnownBlock {
+			// Block and state both already known: nothing to do, unless the block is
+			// heavier than the head - it was stored but never made canonical (a
+			// rollback, or the process died between writing it and moving the head)
+			// and must be reimported, or the node stays on the lighter branch.
+			// A known block that is not heavier is ignored whatever its number: after
+			// a reorganisation onto a shorter but heavier branch the abandoned blocks
+			// lie above the head, and reprocessing them would fail on pruned parent
+			// state and abort the import of an honest peer's batch.
+			current := bc.CurrentBlock()
+			localTd := bc.GetTd(current.Hash(), current.NumberU64())
+			externTd := bc.GetTd(block.Hash(), block.NumberU64())
+			if localTd == nil || externTd == nil || externTd.Cmp(localTd) <= 0 {
+				stats.ignored++
+				continue
 			}
-
+			// Reimport. If the parent's state has been pruned, its ancestors have to be
+			// executed again first, exactly as for a competing branch that won.
+			err = nil
+			if parent := bc.GetBlock(block.ParentHash(), block.NumberU64()-1); parent != nil && !bc.HasState(parent.Root()) {
+				err = consensus.ErrPrunedAncestor
+			}
+		}
+		switch {
 		case err == consensus.ErrFutureBlock:
 			// Allow up to MaxFuture second in the future blocks. If this limit is exceeded
 			// the chain is discarded and processed at a later time if given.
